@@ -28,6 +28,12 @@ type opIn struct {
 type concIn struct {
 	G int `json:"g"`
 	N int `json:"n"`
+	// FirstUse > 0: instead of fetching the generator once up front, run FirstUse
+	// rounds of { ResetIDGenerator; G goroutines released from a barrier each call
+	// timing.GetIDGenerator().Generate() N times } — the concurrent FIRST use of the
+	// (lazily instantiated, default sequential) generator. The reported run is the
+	// first round that produced a duplicate / zero / wrong range, else the last.
+	FirstUse int `json:"first_use,omitempty"`
 }
 
 type input struct {
@@ -137,7 +143,25 @@ func runSeq(in input) obsSeq {
 func runConc(in input) obsConc {
 	old := runtime.GOMAXPROCS(16)
 	defer runtime.GOMAXPROCS(old)
-	g := freshGen(in.Par)
+	if in.Conc.FirstUse > 0 {
+		var o obsConc
+		for r := 0; r < in.Conc.FirstUse; r++ {
+			o = runConcRound(in, nil)
+			if !o.Distinct || !o.Nonzero || o.Min != 1 || o.Max != o.Count {
+				return o
+			}
+		}
+		return o
+	}
+	return runConcRound(in, freshGen(in.Par))
+}
+
+// runConcRound: g == nil means every call goes through timing.GetIDGenerator()
+// after a reset (concurrent first use).
+func runConcRound(in input, g timing.IDGenerator) obsConc {
+	if g == nil {
+		timing.ResetIDGenerator()
+	}
 	G, N := in.Conc.G, in.Conc.N
 	res := make([][]uint64, G)
 	var start, done sync.WaitGroup
@@ -149,7 +173,11 @@ func runConc(in input) obsConc {
 			defer done.Done()
 			start.Wait()
 			for k := range out {
-				out[k] = g.Generate()
+				if g == nil {
+					out[k] = timing.GetIDGenerator().Generate()
+				} else {
+					out[k] = g.Generate()
+				}
 			}
 		}(res[i])
 	}
@@ -194,7 +222,10 @@ func run(raw json.RawMessage) (hx.Case, error) {
 		c.Coq = hx.App("CConc", coqKind(in.Par), hx.N(uint64(in.Conc.G)), hx.N(uint64(in.Conc.N)),
 			hx.N(o.Count), hx.N(o.Min), hx.N(o.Max), hx.B(o.Distinct), hx.B(o.Nonzero))
 		c.Tags = []string{"concurrent-stress", fmt.Sprintf("goroutines:%d", in.Conc.G), "generator:" + coqKind(in.Par)}
-		c.Nontrivial = in.Conc.G >= 2 && in.Conc.N >= 1000
+		if in.Conc.FirstUse > 0 {
+			c.Tags = append(c.Tags, "concurrent-first-use")
+		}
+		c.Nontrivial = in.Conc.G >= 2 && (in.Conc.N >= 1000 || in.Conc.FirstUse > 0)
 		return c, nil
 	}
 	o := runSeq(in)
@@ -331,11 +362,11 @@ func directed() []input {
 
 func gen(r *hx.Rand, tier string) []json.RawMessage {
 	n := 330
-	stress := []concIn{{2, 200000}, {4, 100000}, {8, 50000}, {16, 40000}, {16, 40000}, {32, 10000}, {64, 4000}, {3, 1}, {1, 1000}}
+	stress := []concIn{{G: 2, N: 200000}, {G: 4, N: 100000}, {G: 8, N: 50000}, {G: 16, N: 40000}, {G: 16, N: 40000}, {G: 32, N: 10000}, {G: 64, N: 4000}, {G: 3, N: 1}, {G: 1, N: 1000}}
 	if tier == "thorough" {
 		n = 6000
 		for i := 0; i < 40; i++ {
-			stress = append(stress, concIn{[]int{2, 3, 5, 8, 16, 24, 48, 128}[r.Intn(8)], 20000 + r.Intn(200000)})
+			stress = append(stress, concIn{G: []int{2, 3, 5, 8, 16, 24, 48, 128}[r.Intn(8)], N: 20000 + r.Intn(200000)})
 		}
 	}
 	var out []json.RawMessage
@@ -345,6 +376,14 @@ func gen(r *hx.Rand, tier string) []json.RawMessage {
 	for i, s := range stress {
 		s := s
 		out = append(out, hx.J(input{Par: i%2 == 0, Conc: &s}))
+	}
+	// concurrent first use of the lazily created default generator
+	rounds := 1500
+	if tier == "thorough" {
+		rounds = 20000
+	}
+	for _, g := range []int{2, 8, 16} {
+		out = append(out, hx.J(input{Conc: &concIn{G: g, N: 3, FirstUse: rounds}}))
 	}
 	for len(out) < n {
 		out = append(out, hx.J(genScript(r)))
